@@ -530,8 +530,17 @@ def _inline_explaining(fn, known):
             if not (isinstance(s, ast.Assign) and len(s.targets) == 1 and isinstance(s.targets[0], ast.Name)):
                 continue
             v = s.targets[0].id
-            if v in known or not _simple(s.value) or isinstance(s.value, (ast.Constant, ast.Name)):
+            if v in known or isinstance(s.value, (ast.Constant, ast.Name)):
                 continue
+            if not _simple(s.value):
+                # any expression at all, when the next statement tests nothing but the variable (`t = f(x)` / `if t:`):
+                # the expression is evaluated at the same point either way
+                hs = _head_exprs(nxt)
+                bare = len(hs) == 1 and isinstance(nxt, (ast.If, ast.While)) and (
+                    (isinstance(hs[0], ast.Name) and hs[0].id == v) or
+                    (isinstance(hs[0], ast.UnaryOp) and isinstance(hs[0].op, ast.Not) and isinstance(hs[0].operand, ast.Name) and hs[0].operand.id == v))
+                if not bare or isinstance(nxt, ast.While) or any(isinstance(x, (ast.Yield, ast.YieldFrom, ast.Lambda)) for x in ast.walk(s.value)):
+                    continue
             stores = [x for x in _own(fn) if isinstance(x, ast.Name) and x.id == v and isinstance(x.ctx, ast.Store)]
             loads = [x for x in _own(fn) if isinstance(x, ast.Name) and x.id == v and isinstance(x.ctx, ast.Load)]
             if len(stores) != 1 or not loads:
